@@ -86,30 +86,35 @@ Print Assumptions C16_scale_path_ub_free.
 
 (* API shape: on valid arguments every PathsD wrapper is  descale o entry64 o scale  with the documented scale, and
    delta / arc_tolerance multiplied by the same factor ([spec_call] is that call; [value_of_spec] wraps it).
-   [pow10] is libm's pow(10,.), assumed (and checked at run time) to be the correctly rounded table. *)
+   [pow10] is libm's pow(10,.), assumed (and checked at run time) to be the correctly rounded table.
+   [all_range_ok s ps] = ScalePaths' test of the common bounds and ScalePath's test of each path against +-MAX_COORD,
+   [rect_range_ok] the same for the rectangle; both hold throughout the property's domain (+-2^52).
+   InflatePaths has no exception for delta = 0. *)
 Theorem C16_api_shape : forall exc pow10,
   (forall p, - 8 <= p <= 8 -> pow10 p = pow10_spec p) ->
   forall p, - 8 <= p <= 8 ->
   let sD := scaleD_spec p in let s10 := pow10_spec p in
-  (forall S O C, range_ok sD sD S = true -> range_ok sD sD O = true -> range_ok sD sD C = true ->
+  (forall S O C, all_range_ok sD S = true -> all_range_ok sD O = true -> all_range_ok sD C = true ->
      clipperD_run exc pow10 p true true true S O C = Val (0, value_of_spec (spec_call KPow2 p [S; O; C] None []))) /\
-  (forall S C, range_ok sD sD S = true -> range_ok sD sD C = true ->
+  (forall S C, all_range_ok sD S = true -> all_range_ok sD C = true ->
      booleanopD exc pow10 p S C = Val (0, value_of_spec (spec_call KPow2 p [S; []; C] None []))) /\
-  (forall S, range_ok sD sD S = true ->
+  (forall S, all_range_ok sD S = true ->
      union1D exc pow10 p S = Val (0, value_of_spec (spec_call KPow2 p [S; []; []] None []))) /\
-  (forall ps delta arc, feqb delta 0 = false -> range_ok s10 s10 ps = true ->
+  (forall ps delta arc, all_range_ok s10 ps = true ->
      inflateD exc pow10 p ps delta arc = Val (0, value_of_spec (spec_call KDec p [ps] None [delta; arc]))) /\
-  (forall r ps, rect_is_empty r = false -> ps <> [] -> range_ok s10 s10 ps = true -> scale_rect s10 r <> None ->
+  (forall r ps, rect_is_empty r = false -> ps <> [] -> all_range_ok s10 ps = true -> rect_range_ok s10 r = true ->
+     scale_rect s10 r <> None ->
      rectclipD exc pow10 p r ps = Val (0, value_of_spec (spec_call KDec p [ps] (Some r) []))) /\
-  (forall pth, trimcollinearD exc pow10 p pth = Val (0, value_of_spec (spec_call KDec p [[pth]] None []))) /\
-  (forall pat pth, minkowskiD exc pow10 p pat pth = Val (0, value_of_spec (spec_call KDec p [[pat]; [pth]] None []))).
+  (forall pth, range_ok s10 s10 [pth] = true ->
+     trimcollinearD exc pow10 p pth = Val (0, value_of_spec (spec_call KDec p [[pth]] None []))) /\
+  (forall pat pth, range_ok s10 s10 [pat] = true -> range_ok s10 s10 [pth] = true ->
+     minkowskiD exc pow10 p pat pth = Val (0, value_of_spec (spec_call KDec p [[pat]; [pth]] None []))).
 Proof.
   intros exc pow10 Hpow p Hp sD s10. repeat split.
   - intros S O C. exact (clipperD_shape exc pow10 Hpow p S O C Hp).
   - intros S C. exact (booleanopD_shape exc pow10 Hpow p S C Hp).
   - intros S. exact (union1D_shape exc pow10 Hpow p S Hp).
-  - intros ps delta arc Hd. first [ exact (inflateD_shape exc pow10 Hpow p ps delta arc Hp Hd)
-                                  | exact (inflateD_shape exc pow10 Hpow p ps delta arc Hp) ].
+  - intros ps delta arc. exact (inflateD_shape exc pow10 Hpow p ps delta arc Hp).
   - intros r ps Hr Hne. exact (rectclipD_shape exc pow10 Hpow p r ps Hp Hr Hne).
   - intros pth. exact (trimcollinearD_shape exc pow10 Hpow p pth Hp).
   - intros pat pth. exact (minkowskiD_shape exc pow10 Hpow p pat pth Hp).
@@ -118,13 +123,15 @@ Print Assumptions C16_api_shape.
 
 (* the hypotheses of C16_api_shape are satisfiable *)
 Theorem C16_api_shape_sat :
-  range_ok (scaleD_spec 2) (scaleD_spec 2) [sq] = true /\ range_ok (pow10_spec 2) (pow10_spec 2) [sq] = true /\
+  all_range_ok (scaleD_spec 2) [sq] = true /\ all_range_ok (pow10_spec 2) [sq] = true /\
+  range_ok (pow10_spec 2) (pow10_spec 2) [sq] = true /\ range_ok (pow10_spec 2) (pow10_spec 2) [tri] = true /\
   rect_is_empty (0%float, 0%float, 5%float, 5%float) = false /\
+  rect_range_ok (pow10_spec 2) (0%float, 0%float, 5%float, 5%float) = true /\
   scale_rect (pow10_spec 2) (0%float, 0%float, 5%float, 5%float) <> None.
 Proof. exact shape_hyps_sat. Qed.
 Print Assumptions C16_api_shape_sat.
 
-(* InflatePaths(PathsD) with delta = 0: the code of the unpatched tree returns its input unrounded before any scaling
-   (`if (!delta) return paths;`), which is not descale o entry64 o scale.  That is reported by the differential as
-   inflateD.delta0-returns-unrounded-input and repaired by triage/C16-inflateD-delta0.patch; the wrapper model
-   (ErrorModel.inflateD) follows the repaired code, where delta = 0 is no special case. *)
+(* The wrapper model (ErrorModel.v) follows the repaired code (triage/C16-inflateD-delta0.patch and the C11 patches).
+   On a tree without C16-inflateD-delta0.patch InflatePaths(PathsD) with delta = 0 returns its input unrounded before any
+   scaling (`if (!delta) return paths;`), which is not descale o entry64 o scale: the differential reports that as
+   inflateD.delta0-returns-unrounded-input with the failing input. *)
